@@ -11,7 +11,7 @@ use std::io::Cursor;
 use std::sync::Mutex;
 
 const FORMATS: [&str; 4] = ["xlsx", "xlsb", "xls", "ods"];
-const NAMES: [&str; 8] = ["Sheet1", "a&b", "<x>", "\u{dc}n\u{ef}", "\u{1F600}", "it's", "abcdefghijklmnopqrstuvwxyz01234", "Data \"2\""];
+const NAMES: [&str; 9] = ["Sheet1", "\u{91}q", "a&b", "<x>", "\u{dc}n\u{ef}", "\u{1F600}", "it's", "abcdefghijklmnopqrstuvwxyz01234", "Data \"2\""];
 
 #[derive(Clone, Debug)]
 struct MSheet { name: String, vis: SheetVisible, typ: SheetType }
@@ -57,7 +57,7 @@ fn build(ch: &mut Chooser, fmt: &str) -> (Vec<u8>, Meta, Vec<(String, String)>) 
     let ws_index = |name: &str| m.sheets.iter().position(|s| s.name == name).unwrap();
     match fmt {
         "xlsx" => {
-            let mut b = xlsx::XBook { date1904: Some(m.is1904), styles: Some(xlsx::XStyles { num_fmts: vec![], cell_xfs: vec![0, 14], cell_style_xfs: vec![0] }), ..Default::default() };
+            let mut b = xlsx::XBook { date1904: Some(m.is1904), styles: Some(xlsx::XStyles { num_fmts: vec![], cell_xfs: vec![0, 14], cell_style_xfs: vec![0], omit_general_numfmt: false }), ..Default::default() };
             for s in &m.sheets {
                 let mut c = xlsx::XCell::new(0, 0, xlsx::XVal::Num(format!("{SERIAL}")));
                 c.style = Some(1);
@@ -213,7 +213,7 @@ fn run_case(rep: &Report, ch: &mut Chooser, fmt: &str, local: &mut Vec<(u64, boo
 
 pub fn check(rep: &Report) {
     let t = crate::thorough(&rep.tier);
-    rep.rule("workbooks = 0..3 sheets x 8 names (XML specials, quotes, non-ASCII, astral, 31 characters) x visibility x kind (xlsx/xlsb: work/chart/dialog/macro; xls dt 0/1/2/6; ods display) x 0..2 reference-valued defined names x 1900/1904 (+ a date cell on every worksheet) x prefix / name packing / xls substreams stored in reverse of BoundSheet8 order / a formula-less name record before the names (xls, xlsb); per format all choice vectors with <= d deviations from (one visible worksheet 'Sheet1') and the full product over one-sheet workbooks; non-trivial = non-default; distinct by file bytes");
+    rep.rule("workbooks = 0..3 sheets x 9 names (XML specials, quotes, non-ASCII, a C1 control character, astral, 31 characters) x visibility x kind (xlsx/xlsb: work/chart/dialog/macro; xls dt 0/1/2/6; ods display) x 0..2 reference-valued defined names x 1900/1904 (+ a date cell on every worksheet) x prefix / name packing / xls substreams stored in reverse of BoundSheet8 order / a formula-less name record before the names (xls, xlsb); per format all choice vectors with <= d deviations from (one visible worksheet 'Sheet1') and the full product over one-sheet workbooks; non-trivial = non-default; distinct by file bytes");
     rep.assume("defined names are reference-valued (the one form all four readers decode); picture/VBA parts are not present");
     let stats = Mutex::new(Stats::default());
     let dev = if t { 4 } else { 3 };
